@@ -39,7 +39,7 @@ LISTX_ITEMS = ["a", "road", "rail road", "A", "2_Klass", "a-b", "c_d", "1", "12"
                "TRUE", "false", "True", "ON", "x.y", "it's", "caf\u00e9", "0", "00", "1E+2", "-0.0", "end"]
 LISTX = ["{a,b,c}", "{1,2,3}", "{road,rail}", "{x}", "{a, b}", "{rail road,b}", "{ a ,b }", "{A,b,C}"]
 KV_KEYS = ["wms_title", "WMS_SRS", "k 1", "a", "ows_enable_request", "Wfs_Abstract", "gml_include_items", "x", "key2",
-           "default_x", "qstring", "oWs_TiTle"]
+           "default_x", "qstring", "oWs_TiTle", "Stra\u00dfe", "\u017ft", "\u03c3\u03c2", "\u0130x", "projection", "layer"]   # (+ keys whose casefold / upper forms differ from lower)
 CONFIG_KEYS = ["MS_ERRORFILE", "proj_lib", "On_Missing_Data", "CGI_CONTEXT_URL", "MS_ENCRYPTION_KEY", "my_key", "PROJ_LIB"]
 PROJ = [["init=epsg:4326"], ["proj=utm", "zone=15", "datum=NAD83", "no_defs"], ["+proj=longlat +datum=WGS84"],
         ["proj=lcc", "lat_1=49", "lat_2=77", "units=m"], ["init=epsg:3857", "x"], ["'+proj=longlat'", "+no_defs"]]
@@ -241,8 +241,14 @@ class Gen:
                 if not p.includes:
                     return []
                 return [["rep", k, ch.choice(INCLUDES)] for _ in range(ch.int(1, 2))]
-            return [["rep", k, ch.choice(REP_VALUES) if ch.chance(3, 4) else self.string(multiline=False)[0]]
-                    for _ in range(ch.int(1, 3))]
+            reps = []
+            for _ in range(ch.int(1, 4)):
+                if reps and ch.chance(1, 4):
+                    reps.append(["rep", k, ch.choice(reps)[2]])   # the same directive written again, character for character
+                    self.count("rep:duplicate_value")
+                else:
+                    reps.append(["rep", k, ch.choice(REP_VALUES) if ch.chance(3, 4) else self.string(multiline=False)[0]])
+            return reps
         v = self.atom(type_, slot, alt)
         if v is None:
             return []
